@@ -659,12 +659,19 @@ func (ch *Chain) Project() M {
 	}
 	// claims: through the Claimed query for every known leaf, plus a raw walk for anything else
 	raw := map[string]bool{}
-	if err := k.ProvenWithdrawals.Walk(ctx, nil, func(key collections.Pair[uint64, []byte], v bool) (bool, error) {
-		raw[keyOf(key.K1())+"#"+hex.EncodeToString(key.K2())] = true
-		return false, nil
-	}); err != nil {
+	// keys only: what the collection stores as value is the module's business (a flag today)
+	pit, err := k.ProvenWithdrawals.Iterate(ctx, nil)
+	if err != nil {
 		panic(err)
 	}
+	for ; pit.Valid(); pit.Next() {
+		key, err := pit.Key()
+		if err != nil {
+			panic(err)
+		}
+		raw[keyOf(key.K1())+"#"+hex.EncodeToString(key.K2())] = true
+	}
+	pit.Close()
 	for hx, lid := range c.KnownLeaves() {
 		hb, _ := hex.DecodeString(hx)
 		for _, bk := range ch.Cfg.BKeys {
